@@ -6,8 +6,7 @@
     2. arithmetic of the hex window and of surrogate pairs;
     3. [UPiece c p]: [p] is a spelling of the character [c] that [unescape]
        accepts; [ustep] decodes exactly the pieces (both directions);
-    4. [unescape] is total: [Ok] or [LiquidSyntaxError] on every string
-       without lone surrogates. *)
+    4. [unescape] is total: [Ok] or [LiquidSyntaxError] on every string. *)
 From LQ Require Import Base.Str Kernels.Unescape.
 Local Open Scope N_scope.
 
@@ -352,22 +351,12 @@ Qed.
 
 Lemma parse_hex_digits4 a b c d v :
   hex4 a b c d = Some v -> parse_hex_digits [a; b; c; d] = Ok v.
-Proof.
-  intros H. unfold parse_hex_digits.
-  assert (E : existsb is_surrogate [a; b; c; d] = false).
-  { unfold hex4 in H.
-    destruct (hexval a) eqn:Ea, (hexval b) eqn:Eb, (hexval c) eqn:Ec, (hexval d) eqn:Ed;
-      try discriminate.
-    cbn [existsb]. rewrite (hexval_not_surrogate _ _ Ea), (hexval_not_surrogate _ _ Eb),
-      (hexval_not_surrogate _ _ Ec), (hexval_not_surrogate _ _ Ed). reflexivity. }
-  rewrite E, parse_hex_loop4, H. reflexivity.
-Qed.
+Proof. intros H. unfold parse_hex_digits. rewrite parse_hex_loop4, H. reflexivity. Qed.
 
 Lemma parse_hex_digits4_inv a b c d v :
   parse_hex_digits [a; b; c; d] = Ok v -> hex4 a b c d = Some v.
 Proof.
-  unfold parse_hex_digits. destruct (existsb _ _); [discriminate|].
-  rewrite parse_hex_loop4. destruct (hex4 a b c d); [congruence|discriminate].
+  unfold parse_hex_digits. rewrite parse_hex_loop4. destruct (hex4 a b c d); [congruence|discriminate].
 Qed.
 
 Lemma high_low_disjoint cp : is_high_surrogate cp = true -> is_low_surrogate cp = false.
@@ -480,91 +469,73 @@ Definition ok_or_syntax {A} (r : res A) : Prop :=
   | _ => False
   end.
 
-Definition no_surrogates (v : str) : Prop := existsb is_surrogate v = false.
-
-Lemma existsb_firstn {A} (f : A -> bool) n l : existsb f l = false -> existsb f (firstn n l) = false.
-Proof.
-  revert l; induction n as [|n IH]; intros [|x l]; cbn [firstn existsb]; try reflexivity.
-  rewrite orb_false_iff. intros [H1 H2]. rewrite H1. apply IH; assumption.
-Qed.
-
-Lemma existsb_skipn {A} (f : A -> bool) n l : existsb f l = false -> existsb f (skipn n l) = false.
-Proof.
-  revert l; induction n as [|n IH]; intros [|x l]; cbn [skipn existsb]; try tauto.
-  rewrite orb_false_iff. intros [H1 H2]. apply IH; assumption.
-Qed.
-
 Lemma parse_hex_loop_total ds : forall cp, ok_or_syntax (parse_hex_loop ds cp).
 Proof.
   induction ds as [|d ds IH]; intros cp; [exact I|].
   rewrite parse_hex_loop_cons. destruct (hexval d); [apply IH|exact I].
 Qed.
 
-Lemma parse_hex_digits_total v i j :
-  no_surrogates v -> ok_or_syntax (parse_hex_digits (slice v i j)).
-Proof.
-  intros H. unfold parse_hex_digits, slice.
-  rewrite existsb_firstn by (apply existsb_skipn; exact H). apply parse_hex_loop_total.
-Qed.
+Lemma parse_hex_digits_total ds : ok_or_syntax (parse_hex_digits ds).
+Proof. apply parse_hex_loop_total. Qed.
 
-Lemma decode_hex_char_total v j : no_surrogates v -> ok_or_syntax (decode_hex_char v j).
+Lemma decode_hex_char_total v j : ok_or_syntax (decode_hex_char v j).
 Proof.
-  intros H. unfold decode_hex_char.
+  unfold decode_hex_char.
   destruct (_ <=? _)%nat; [exact I|].
-  pose proof (parse_hex_digits_total v (j + 1) (j + 1 + 4) H) as P1.
+  pose proof (parse_hex_digits_total (slice v (j + 1) (j + 1 + 4))) as P1.
   destruct (parse_hex_digits (slice v (j + 1) (j + 1 + 4))) as [cp|cl [pp|]|k|];
     cbn [bind]; try exact P1.
   destruct (is_low_surrogate cp); [exact I|].
   destruct (is_high_surrogate cp); [|exact I].
   destruct (negb _); [exact I|].
-  pose proof (parse_hex_digits_total v (j + 1 + 6) (j + 1 + 10) H) as P2.
+  pose proof (parse_hex_digits_total (slice v (j + 1 + 6) (j + 1 + 10))) as P2.
   destruct (parse_hex_digits (slice v (j + 1 + 6) (j + 1 + 10))) as [lo|cl [pp|]|k|];
     cbn [bind]; try exact P2.
   destruct (negb _); exact I.
 Qed.
 
-Lemma decode_escape_sequence_total v j :
-  no_surrogates v -> ok_or_syntax (decode_escape_sequence v j).
+Lemma decode_escape_sequence_total v j : ok_or_syntax (decode_escape_sequence v j).
 Proof.
-  intros H. rewrite decode_escape_sequence_spec.
+  rewrite decode_escape_sequence_spec.
   destruct (nth_error v j) as [ch|]; [|exact I].
   destruct (simple_escape ch); [exact I|].
   destruct (ch =? CH_u); [|exact I].
-  pose proof (decode_hex_char_total v j H) as P.
+  pose proof (decode_hex_char_total v j) as P.
   destruct (decode_hex_char v j) as [[cp k]|cl [pp|]|k|]; cbn [bind]; try exact P.
   unfold string_from_code_point. destruct (cp <? 8); exact I.
 Qed.
 
-Lemma ustep_total suf : suf <> [] -> no_surrogates suf -> ok_or_syntax (ustep suf).
+Lemma ustep_total suf : suf <> [] -> ok_or_syntax (ustep suf).
 Proof.
-  intros Hn H. destruct suf as [|ch r]; [congruence|].
+  intros Hn. destruct suf as [|ch r]; [congruence|].
   unfold ustep, unescape_body. ustep_cbn.
-  destruct (ch =? BSL); [apply decode_escape_sequence_total; assumption|].
+  destruct (ch =? BSL); [apply decode_escape_sequence_total|].
   unfold string_from_code_point. destruct (ch <? 8); exact I.
 Qed.
 
 Lemma unescape_loop_total f : forall suf,
-  (length suf < f)%nat -> no_surrogates suf -> ok_or_syntax (unescape_loop f suf 0).
+  (length suf < f)%nat -> ok_or_syntax (unescape_loop f suf 0).
 Proof.
-  induction f as [|f IH]; intros suf Hl Hs; [lia|].
+  induction f as [|f IH]; intros suf Hl; [lia|].
   rewrite unescape_loop_step. destruct suf as [|x r] eqn:Es; [exact I|]. rewrite <- Es in *.
   assert (Hne : suf <> []) by (rewrite Es; discriminate).
-  pose proof (ustep_total suf Hne Hs) as P.
+  pose proof (ustep_total suf Hne) as P.
   destruct (ustep suf) as [[c k]|cl [pp|]|kk|] eqn:Eu; cbn [bind]; try exact P.
   assert (Hlen : (length (skipn (k + 1) suf) < f)%nat).
   { rewrite skipn_length. rewrite Es in Hl |- *. cbn [length] in *. lia. }
-  pose proof (IH (skipn (k + 1) suf) Hlen (existsb_skipn _ _ _ Hs)) as P2.
+  pose proof (IH (skipn (k + 1) suf) Hlen) as P2.
   destruct (unescape_loop f (skipn (k + 1) suf) 0) as [s|cl [pp|]|kk|]; cbn [bind]; exact P2 || exact I.
 Qed.
 
 (** [unescape] never raises anything but LiquidSyntaxError (and never runs out
-    of fuel), on every string without lone surrogates. *)
-Lemma unescape_total v : no_surrogates v -> ok_or_syntax (unescape v).
-Proof. intros H. apply unescape_loop_total; [lia|assumption]. Qed.
+    of fuel), on every string (lone surrogates included, since 2f6fa4b). *)
+Lemma unescape_total v : ok_or_syntax (unescape v).
+Proof. apply unescape_loop_total. lia. Qed.
 
-(** With a lone surrogate inside a hex window, [digits.encode()] fails. *)
-Lemma unescape_surrogate_digit_unicode_error :
-  unescape [BSL; CH_u; 0xD800; 48; 48; 48] = PyExc UnicodeError.
+(** A lone surrogate inside a hex window is a syntax error like any other
+    non-hex character. *)
+Lemma unescape_surrogate_digit_syntax_error :
+  unescape [BSL; CH_u; 0xD800; 48; 48; 48] = LErr LiquidSyntaxError None.
 Proof. vm_compute. reflexivity. Qed.
 
 (** * 5. [unescape raw = Ok s] iff [raw] is a concatenation of pieces spelling [s] *)
